@@ -15,6 +15,14 @@ def pool(chk, n):
     # one upstream part with every kind of revision: equal-looking revisions must be interchangeable
     for r in [b"1", b"+1", b"01", b"1a", b"1+", b"0", b"", b"~", b"+", b"a"]:
         out.append((0, b"1", r))
+    # digit runs at and beyond the machine-word boundaries (2^31, 2^32, 2^63, 2^64) and far beyond: the order has no
+    # limit on magnitude, so the laws must hold there too (a comparison through a fixed-width integer wraps)
+    for u in [b"2147483647", b"2147483648", b"4294967296", b"1000000000000000000", b"9223372036854775807", b"9223372036854775808",
+              b"9300000000000000000", b"18446744073709551615", b"18446744073709551616", b"018446744073709551616",
+              b"100000000000000000000000000000000000001", b"1.18446744073709551617"]:
+        out.append((0, u, b""))
+    out.append((0, b"1", b"18446744073709551616"))
+    out.append((0, b"1", b"9223372036854775809"))
     while len(out) < n:
         u = rand_version_part(rng, 12) or b"0"
         if rng.random() < 0.4 and out:
@@ -28,7 +36,7 @@ def pool(chk, n):
 
 def run(chk):
     rng = chk.rng
-    n = chk.n(70, 160)
+    n = chk.n(84, 170)
     vs = pool(chk, n)
     cases = [("vcmp", [a[0], a[1], a[2], b[0], b[1], b[2]]) for a in vs for b in vs]
     impl, model = chk.run_both(cases)
